@@ -46,6 +46,10 @@ CHECKS = [
         "Same histories as C05; on every quiescent peer Status(cid) and StatusAll are compared by class with each other and with the facts (pinset entry, daemon content, outcome of the last operation), and 19 filters are checked against the filter law. Sampling, not proof.",
         "Views are compared by class, so pin_error vs unexpectedly_unpinned is agreement. The cluster-wide peer-map clause is exercised by clustersim when built; until then only the per-peer clauses are decided.",
         "DESIGN.md §6 C06", "trackersim"),
+    chk("C07", "exploration",
+        "A real Cluster whose consensus component is the real Raft or the real CRDT implementation (trust: Raft / explicit list / empty list / trust-all, then Trust/Distrust at plan-chosen points) is called over libp2p by real gorpc clients: every endpoint found by reflection over the five RPC service types x {self, trusted remote, untrusted remote} is called in a plan-chosen order (a complete walk of the table per walk step) and the outcome is compared with what the statement dictates: untrusted callers get only identity, version and the join handshake (default deny, also for endpoints nobody classified), local-only endpoints are refused to every remote caller, self is never refused, nothing open to an untrusted caller is refused to a trusted one, and a refused call leaves tracker, IPFS, blocks and pinset untouched. Pubsub clause (crdtsim part): updates published by a replica that nobody ever trusted never appear at the others, under partitions and latency skews. Sampling over trust histories and call orders; the endpoint x caller table is walked completely in every plan.",
+        "Which endpoints are local-only vs peer-to-peer is a specification table written from the statement's categories (harness/clustersim/c07.go); an endpoint in the code that the table does not name stops the check with exit 2. A publisher that some trusted replica trusts is vouched for (its updates are re-published by that replica).",
+        "DESIGN.md §6 C07", "clustersim+crdtsim"),
     chk("C09", "exploration",
         "Seeded search over metric arrival histories under the fake clock: the real Store/Window/Checker (bare) and the real pubsubmon Monitor over real gossipsub on mocknet receive arrivals with chosen validity and TTLs, window overflows, peerset changes, peer removals and partitions; every read is compared with a reference table at that simulated instant (latest per peer, valid, unexpired, member) and the alert history is judged per expiry episode (never while fresh, at most once, at least once when the expiry rule applies). Sampling, not proof.",
         "At the exact expiry instant either answer is accepted; with >= 6 samples no upper bound on alert delay is asserted (accrual detector); a renewal that arrives and expires between two checker rounds does not demand its own alert; metrics that travel over gossipsub get structural clauses only. The publish-cadence clause (informer/ping loops of Cluster) is decided in clustersim when built.",
@@ -87,10 +91,10 @@ def main():
             "add_only": True,
         },
         "engines": [
-            {"name": "clustersim", "path": "/verif/harness/clustersim", "serves_properties": ["C03", "C04", "C10"], "kind_free_text": "real ipfscluster.Cluster + real allocators on mocknet against model consensus/monitor/tracker/IPFS"},
+            {"name": "clustersim", "path": "/verif/harness/clustersim", "serves_properties": ["C03", "C04", "C07", "C09", "C10"], "kind_free_text": "real ipfscluster.Cluster + real allocators on mocknet against model consensus/monitor/tracker/IPFS"},
             {"name": "ipfshttpsim", "path": "/verif/harness/ipfshttpsim", "serves_properties": ["C16"], "kind_free_text": "real ipfshttp.Connector against a scripted in-memory HTTP daemon (http.DefaultTransport) under the fake clock"},
             {"name": "raftsim", "path": "/verif/harness/raftsim", "serves_properties": ["C01"], "kind_free_text": "real consensus/raft + go-libp2p-raft + hashicorp/raft + BoltDB on mocknet with tmpfs data folders, kill/restart, recording datastore"},
-            {"name": "crdtsim", "path": "/verif/harness/crdtsim", "serves_properties": ["C02"], "kind_free_text": "real consensus/crdt + go-ds-crdt + ipfs-lite + gossipsub + DHT on mocknet, fault-injecting datastore"},
+            {"name": "crdtsim", "path": "/verif/harness/crdtsim", "serves_properties": ["C02", "C07"], "kind_free_text": "real consensus/crdt + go-ds-crdt + ipfs-lite + gossipsub + DHT on mocknet, fault-injecting datastore"},
             {"name": "addersim", "path": "/verif/harness/addersim", "serves_properties": ["C13"], "kind_free_text": "real adder + ipfsadd + single/sharding DAG services + BlockAdder over gorpc on mocknet against recording Cluster/IPFSConnector services with per-(block,destination) faults"},
             {"name": "monsim", "path": "/verif/harness/monsim", "serves_properties": ["C09"], "kind_free_text": "real metrics Store/Window/Checker and pubsubmon over gossipsub on mocknet under the fake clock"},
             {"name": "trackersim", "path": "/verif/harness/trackersim", "serves_properties": ["C05", "C06"], "kind_free_text": "real stateless tracker + optracker in a synctest bubble against model pinset and model IPFS daemon"},
